@@ -23,6 +23,9 @@ type c18Case struct {
 	// Level, if not 0: the calls also go to the reference logger (cmds/server/log) at this level and
 	// what it writes is searched too
 	Level int `json:"level,omitempty"`
+	// Broken, if not empty: the configuration has a third secret configuration whose "prefixes" option is
+	// this (unusable) text
+	Broken string `json:"broken,omitempty"`
 }
 
 func genC18(t *rapid.T) c18Case {
@@ -31,6 +34,7 @@ func genC18(t *rapid.T) c18Case {
 	c.Key = "K3y" + rapid.StringMatching(`[A-Za-z0-9]{16}`).Draw(t, "key_token")
 	c.Scripts, c.Order = genAuthHistory(t, c.World, c.Scope, 3)
 	c.Level = rapid.SampledFrom([]int{0, 10, 20, 30, 30, 31, 100}).Draw(t, "log_level")
+	c.Broken = rapid.SampledFrom([]string{"", "", "", "not json", "[\"10.7.0.0/16\", ]", "[]"}).Draw(t, "broken_scope")
 	// make every presented password a searchable token: wrong passwords become unique strings
 	for i := range c.Scripts {
 		for j := range c.Scripts[i].Pkts {
@@ -67,8 +71,20 @@ func (c c18Case) world() cfggen.World {
 			w.Cfg.Secrets[i].Secret.Key = c.Key
 		}
 	}
+	if c.Broken != "" {
+		// a third secret configuration with a key of its own that cannot be served (its prefix option is
+		// no usable list) although a user is assigned to it: what the loader says about it must not
+		// contain its key
+		sx := cfggen.NewSecret("sX", c.brokenKey(), "10.7.0.0/16")
+		sx.Options["prefixes"] = c.Broken
+		sx.Prefixes = nil
+		w.Cfg.Secrets = append(w.Cfg.Secrets, sx)
+		w.Cfg.Users = append(w.Cfg.Users, cfggen.User{Name: "xavier", Scopes: []string{"sX"}, Authenticator: cfggen.BcryptAuth("pw-alpha")})
+	}
 	return w
 }
+
+func (c c18Case) brokenKey() string { return "Br0" + strings.TrimPrefix(c.Key, "K3y") }
 
 func runC18(t failer, c c18Case) (paths map[string]bool) {
 	ev.Eval()
@@ -94,6 +110,10 @@ func runC18(t failer, c c18Case) (paths map[string]bool) {
 	}
 	r := newAuthRunner(d, []byte(c.Key), c.Scripts)
 	tokens := map[string]string{c.Key: "shared secret"}
+	if c.Broken != "" {
+		ev.Class("misconfigured-scope-with-own-key")
+		tokens[c.brokenKey()] = "shared secret of a secret configuration that cannot be served"
+	}
 	// strings the client also sent in a position that is not a password position (a user name, a
 	// message answering GETUSER, ...): the server may log those, so they cannot serve as tokens
 	elsewhere := map[string]bool{}
